@@ -1210,6 +1210,70 @@ def r06s(ctx, rep, rule="R06s"):
     rep.floor(rule, "program-sized allocations in the builtins", n, 2)
 
 
+def r06v(ctx, rep, rule="R06v"):
+    """the decompiler does not follow a jump offset into the heap"""
+    from ..shapes import dominating_guards
+    facts = ctx["facts"]
+    rep.rule(rule, "a jump offset is not a reference: JMP and JNT carry their offset as a VCell::Ptr, the encoding of a heap reference, "
+             "and the decompiler (reached from trace! in the compiler and the run loop when trace logging is on) renders the value "
+             "of the first Ptr operand of an instruction by converting the cell it names — which panics if that cell holds an "
+             "internal value (an environment, say) and the offset happens to equal its index: (if #t (list 0 .. 0) 2) with 82 "
+             "zeros. In Vm::decompile_one every conversion of a Ptr operand is guarded by a flag that is set for the opcodes Jmp "
+             "and Jnt and tested false.")
+    f = None
+    for p, g in facts.fns.items():
+        if p.endswith("::decompile_one") and g.crate == "marwood":
+            f = g
+    if f is None:
+        rep.anchor_lost(rule, "Vm::decompile_one")
+        return
+    OPC = "marwood::vm::opcode::OpCode"
+    jv = {variant_index(facts.adts[OPC], "Jmp"), variant_index(facts.adts[OPC], "Jnt")} if OPC in facts.adts else {None}
+    # flags set to true exactly under the Jmp / Jnt targets of a switch on an OpCode discriminant
+    flags = set()
+    for sw in disc_switches(facts, f, OPC):
+        tg = {t for v, t in sw["term"]["targets"] if v in jv}
+        if len(tg) != 1 or None in jv:
+            continue
+        tb = next(iter(tg))
+        for st in f.blocks[tb]["stmts"]:
+            c = op_const(st["rv"].get("a")) if st["rv"]["k"] == "use" else None
+            if c is not None and c.get("ty") == "bool" and c.get("int") in (1, True) and not st["lhs"]["p"]:
+                flags.add(st["lhs"]["l"])
+    sites = [(bb, t) for bb, t in f.calls() if (callee(t) or "").endswith("Heap::get_as_cell")]
+    n = 0
+    for bb, t in sites:
+        o = f.origin(t["args"][1]) if len(t["args"]) > 1 else None
+        # only conversions of the operand itself (the GlobalEnvSlot arm converts a slot's value, which is a reference)
+        if o is not None and o[0] == "call":
+            continue
+        n += 1
+        key = "%s|decompile_one|ptr-operand#%d" % (rule, n)
+        ok = False
+        for sb, cond, taken, tt in dominating_guards(f, bb):
+            pl = op_place(cond)
+            src = f.origin(cond)
+            locs = {pl["l"]} if pl is not None and not pl["p"] else set()
+            if src[0] == "local":
+                locs.add(src[1])
+            if pl is not None and not pl["p"]:
+                sd = f.single_def(pl["l"])
+                if sd and sd[2] == "assign" and sd[3]["rv"]["k"] == "use" and op_place(sd[3]["rv"]["a"]) is not None:
+                    locs.add(op_place(sd[3]["rv"]["a"])["l"])
+            if taken == 0 and locs & flags:
+                ok = True
+            # `!flag` materialised
+            if src[0] == "rv" and src[1]["rv"]["k"] == "un" and src[1]["rv"]["op"] == "Not":
+                inner = op_place(src[1]["rv"]["a"])
+                if inner is not None and inner["l"] in flags and taken != 0:
+                    ok = True
+        (rep.ok if ok else rep.fail)(
+            rule, key, "decompile_one converts a Ptr operand only for opcodes other than JMP / JNT" if ok else
+            "decompile_one converts the cell a Ptr operand names whatever the opcode: the offset of a JMP / JNT is followed into the "
+            "heap, and get_as_cell panics when the cell at that index holds an internal value", [t["loc"]])
+    rep.floor(rule, "conversions of a Ptr operand in decompile_one", n, 1)
+
+
 def r06b(ctx, rep):
     facts, cg = ctx["facts"], ctx["cg"]
     rep.rule("R06b", "no mutable borrow is held across a call into the library: while a RefMut guard is live, only "
@@ -1539,6 +1603,7 @@ def run(ctx, rep):
     r06x(ctx, rep)
     r06y(ctx, rep)
     r06s(ctx, rep)
+    r06v(ctx, rep)
     # R06v: the n-ary list walks of the prelude need a list to end on
     from . import C14
     sub = type(rep)(rep.prop)
